@@ -2,7 +2,7 @@
 from ..effects import rule_F6
 from ..pathrules import rule_T3, rule_T4, rule_T6
 from ..agree import rule_A2_A6
-from ..sampler_rules import rule_L3_L4, rule_L1_sampler
+from ..sampler_rules import rule_L3_L4, rule_L1_sampler, rule_L1d_transition
 from ..persist import rule_P4_sampler
 
 LEVEL_TEXT = ('Static phase-guard, who-may-write, extend-prefix and purity rules: bounds and '
@@ -17,6 +17,7 @@ def run(ctx):
     rule_F6(ctx)
     rule_L1_sampler(ctx, {'shell'})
     rule_L3_L4(ctx)
+    rule_L1d_transition(ctx)
     rule_T3(ctx)
     rule_T4(ctx)
     rule_A2_A6(ctx)
